@@ -118,6 +118,19 @@ fn main() {
         return;
     }
 
+    if cmd == "c19-find" {
+        let env = Env::from_env("quick");
+        let inputs: Vec<&str> = args[2..].iter().map(|s| s.as_str()).collect();
+        println!("{:?}", props::c19::find_cases(env.seed, 5000, &inputs));
+        env.cleanup();
+        return;
+    }
+    if cmd == "c19-debug" {
+        let env = Env::from_env("quick");
+        props::c19::debug_case(&env, args[2].parse().unwrap(), args.get(3).and_then(|s| s.parse().ok()).unwrap_or(1));
+        env.cleanup();
+        return;
+    }
     if cmd == "selftest-diff" {
         let env = Env::from_env("quick");
         selftest::diff_case(&env, args[2].parse().unwrap());
